@@ -611,3 +611,127 @@ pub fn execute_udp(plan: &Plan) -> Outcome {
         extra_cases: Vec::new(),
     }
 }
+
+// ---------------------------------------------------------------- C09, datagram sessions
+
+/// C09 for datagram sessions: 2-4 local applications together, then each of them alone (same plan, same slots);
+/// what an application's datagrams and replies come to must not depend on its neighbours. Clean links only
+/// (with loss the comparison would be between two different random experiments).
+pub fn gen_c09_udp(seed: u64, thorough: bool) -> Plan {
+    let mut g = Gen::new(seed, 92);
+    let cells = udp_cells();
+    let (proto, cipher, transport, n_users) = cells[seed as usize % cells.len()];
+    let config = udp_config(&mut g, proto, cipher, transport, n_users);
+    let max_payload = match proto {
+        Proto::Shadowsocks => 65507 - 400,
+        Proto::Vmess => 2100,
+        Proto::Trojan => 65535,
+    };
+    let mut up = gen_udp_plan_for(&mut g, thorough, max_payload, if proto == Proto::Vmess { Some(must_carry(proto)) } else { None });
+    while up.apps.len() < 2 {
+        let extra = up.apps[0].clone();
+        up.apps.push(extra);
+    }
+    // no idle gaps beyond a few seconds: expiry of a shared table entry is a legitimate interaction in time, not between flows
+    for a in up.apps.iter_mut() {
+        for op in a.iter_mut() {
+            if let UdpOp::Pause(ms) = op {
+                *ms = (*ms).min(2_000);
+            }
+        }
+    }
+    if proto == Proto::Shadowsocks && up.targets.len() > 1 && g.chance(30) {
+        let t = g.below(up.targets.len() as u64) as usize;
+        up.targets[t].replies = 1;
+        up.targets[t].reply_size = 65507 - g.range(0, 60) as usize;
+    }
+    Plan {
+        property: "C09".into(),
+        scenario: "independence-udp".into(),
+        seed,
+        net_seed: g.next(),
+        config,
+        knobs: KnobsPlan { latency_us: *g.pick(&[0, 0, 300, 8000]), read_style: *g.pick(&[0, 0, 2, 4]), ..KnobsPlan::simple() }.for_transport(transport),
+        flows: vec![],
+        extra: serde_json::json!({ "udp": up }),
+    }
+}
+
+/// what one application's traffic came to: per sent datagram how often it reached its target, and the replies that came back
+fn app_summary(up: &UdpPlan, o: &UdpObs, app: usize) -> (Vec<((usize, u32, usize), usize)>, Vec<(usize, u32, u8, usize)>, usize) {
+    let mut delivered = Vec::new();
+    for (t, seq, size) in &o.sent[app] {
+        let n = o.target_recv.get(*t).map_or(0, |r| r.iter().filter(|(_, d)| *size >= 9 && *d == dgram_payload(app, *t, *seq, 0, *size)).count());
+        delivered.push(((*t, *seq, *size), n));
+    }
+    let mut replies: Vec<(usize, u32, u8, usize)> = Vec::new();
+    let mut junk = 0;
+    for d in &o.app_recv[app] {
+        match socks5_udp_unwrap(d) {
+            Some((_, _, data)) if data.len() >= 9 && u16::from_be_bytes([data[0], data[1]]) as usize == app => {
+                replies.push((u16::from_be_bytes([data[2], data[3]]) as usize, u32::from_be_bytes([data[4], data[5], data[6], data[7]]), data[8], data.len()));
+            }
+            _ => junk += 1,
+        }
+    }
+    replies.sort();
+    let _ = up;
+    (delivered, replies, junk)
+}
+
+pub fn execute_c09_udp(plan: &Plan) -> Outcome {
+    let up: UdpPlan = serde_json::from_value(plan.extra["udp"].clone()).expect("udp plan");
+    let cell = plan.config.label();
+    let all = rt::run_sim(plan.seed, plan.net_seed, plan.knobs.to_knobs(), || run_udp_system(plan, &up));
+    let mut v = Vec::new();
+    let mut panics = all.panics.clone();
+    let (mut sim_ns, mut polls, mut ev_count) = (all.sim_ns, all.polls, all.world.ev_count);
+    let mut extra_cases = Vec::new();
+    if let Some(e) = &all.result.startup_err {
+        v.push(Violation::new("C09", format!("C09/udp-startup/{cell}"), e.clone()));
+    } else {
+        for ix in 0..up.apps.len() {
+            let mut single = up.clone();
+            for (j, a) in single.apps.iter_mut().enumerate() {
+                if j != ix {
+                    a.clear();
+                }
+            }
+            let alone = rt::run_sim(plan.seed, plan.net_seed, plan.knobs.to_knobs(), || run_udp_system(plan, &single));
+            sim_ns += alone.sim_ns;
+            polls += alone.polls;
+            ev_count += alone.world.ev_count;
+            panics.extend(alone.panics.clone());
+            extra_cases.push(alone.poll_hash ^ plan.seed ^ ix as u64);
+            let a = app_summary(&up, &alone.result.obs, ix);
+            let t = app_summary(&up, &all.result.obs, ix);
+            if a != t {
+                let what = if a.0 != t.0 { "datagrams" } else if a.1 != t.1 { "replies" } else { "stray-datagrams" };
+                let first = a.0.iter().zip(t.0.iter()).find(|(x, y)| x != y).map(|(x, y)| format!("datagram {:?}: alone delivered {} times, together {}", x.0, x.1, y.1)).unwrap_or_else(|| format!("replies alone {} / together {}, undecodable or foreign datagrams alone {} / together {}", a.1.len(), t.1.len(), a.2, t.2));
+                v.push(Violation::new("C09", format!("C09/udp-depends-on-neighbours/{cell}/{what}"), format!("application {ix} of {}: {first}", up.apps.len())));
+            }
+        }
+    }
+    for p in &panics {
+        v.push(Violation::new("C09", format!("C09/panic/{cell}/{}", p.frame), format!("panic in node {}: {} at {}", p.node, p.message, p.location)));
+    }
+    v.dedup_by(|a, b| a.signature == b.signature);
+    let got: usize = all.result.obs.target_recv.iter().map(|s| s.len()).sum();
+    let mut probes = BTreeMap::new();
+    probes.insert("udp_sessions_compared".to_owned(), up.apps.len() as u64);
+    Outcome {
+        violations: v,
+        ev_hash: all.world.ev_hash,
+        ev_count,
+        poll_hash: all.poll_hash,
+        polls,
+        sim_ns,
+        stats: crate::report::world_stats(&all.world),
+        nontrivial: got > 0,
+        case_hash: all.poll_hash ^ plan.seed.wrapping_mul(0x9E3779B97F4A7C15),
+        probes,
+        panics,
+        extra_evaluations: up.apps.len() as u64,
+        extra_cases,
+    }
+}
